@@ -320,8 +320,10 @@ def P24(m, R):
     # (a) apply_formatting, topmost=False
     f = m.fn('AnsiString.apply_formatting')
     cons = 'apply_formatting restart'
-    blk = next((n for n in f.body if isinstance(n, ast.If) and eval_guard(n.test, flag_valuation({'topmost': False})) is True
-                and eval_guard(n.test, flag_valuation({'topmost': True})) is False), None)
+    blks = [n for n in f.body if isinstance(n, ast.If) and eval_guard(n.test, flag_valuation({'topmost': False})) is True
+            and eval_guard(n.test, flag_valuation({'topmost': True})) is False]
+    # (the block that does the restart; a block under the same flag that only prepares a list comes first in some layouts)
+    blk = next((n for n in blks if any(isinstance(x, ast.Call) and call_name(x) in ('insert_settings', 'extend') for x in ast.walk(n))), blks[0] if blks else None)
     if blk is None:
         R.viol(f, f.node, 'topmost=False has no restart block: continuing settings would stay below the new ones', construct=cons)
     else:
@@ -359,15 +361,19 @@ def P24(m, R):
         direct = None
         if acc is None or filt is None:
             # form 3: the list is the unfiltered result of one ansi_settings_at(..) call
-            cand = [s_ for s_ in blk.body if isinstance(s_, ast.Assign) and isinstance(s_.targets[0], ast.Name) and call_name(s_.value) == 'ansi_settings_at'
-                    and is_name(getattr(s_.value.func, 'value', None), f.self_name) and len(s_.value.args) == 1]
+            # the list handed to insert_settings(False, ..) in the block, wherever it was bound (also before the block, under the same flag)
+            used = [x.args[1].id for x in ast.walk(blk) if isinstance(x, ast.Call) and call_name(x) == 'insert_settings' and len(x.args) >= 2 and
+                    const_val(x.args[0], None) is False and isinstance(x.args[1], ast.Name)]
+            cand = [s_ for s_ in f.walk() if isinstance(s_, ast.Assign) and isinstance(s_.targets[0], ast.Name) and s_.targets[0].id in used and
+                    call_name(s_.value) == 'ansi_settings_at' and is_name(getattr(s_.value.func, 'value', None), f.self_name) and len(s_.value.args) == 1]
             if len(cand) == 1:
                 nm = cand[0].targets[0].id
-                others = [x for x in ast.walk(blk) if isinstance(x, (ast.Assign, ast.AugAssign)) and x is not cand[0] and
-                          is_name(x.targets[0] if isinstance(x, ast.Assign) else x.target, nm)]
-                mut = [x for x in ast.walk(blk) if isinstance(x, ast.Call) and isinstance(x.func, ast.Attribute) and is_name(x.func.value, nm) and
+                others = [x for x in f.walk() if isinstance(x, (ast.Assign, ast.AugAssign)) and x is not cand[0] and
+                          is_name(x.targets[0] if isinstance(x, ast.Assign) else x.target, nm) and
+                          not (isinstance(x, ast.Assign) and isinstance(x.value, (ast.List, ast.Tuple)) and not x.value.elts)]
+                mut = [x for x in f.walk() if isinstance(x, ast.Call) and isinstance(x.func, ast.Attribute) and is_name(x.func.value, nm) and
                        x.func.attr in ('remove', 'pop', 'clear', 'append', 'extend', 'insert')] + \
-                    [x for x in ast.walk(blk) if isinstance(x, ast.Delete) and any(nm in names_in(t_) for t_ in x.targets)]
+                    [x for x in f.walk() if isinstance(x, ast.Delete) and any(nm in names_in(t_) for t_ in x.targets)]
                 restarted = any(isinstance(x, ast.Call) and call_name(x) == 'insert_settings' and len(x.args) >= 2 and is_name(x.args[1], nm) for x in ast.walk(blk))
                 if not others and not mut and restarted:
                     direct = (cand[0], canon(cand[0].value.args[0], al))
